@@ -75,6 +75,39 @@ def run_shards(prop, tier, seed, nshards, cases, tlimit, workdir, extra_env=None
     return results
 
 
+def start_suite(prop, seed, workdir):
+    """the repository's own tests with the monitors of `prop` attached (second workload source, thorough tier)"""
+    out = os.path.join(workdir, "suite.json")
+    e = dict(os.environ, VMON_PROP=prop, VMON_OUT=out, PYTHONPATH=env.VERIF + os.pathsep + os.path.join(env.VERIF, ".deps"),
+             PYTHONHASHSEED="0", PYTHONDONTWRITEBYTECODE="1", HYPOTHESIS_STORAGE_DIRECTORY=os.path.join(workdir, "hyp"))
+    cmd = [env.PY, "-m", "pytest", "-q", "-x", "--co", "-p", "no:cacheprovider"]
+    cmd = [env.PY, "-m", "pytest", "-q", "-p", "no:cacheprovider", "-p", "vmon.pytest_plugin", "--timeout=900",
+           "--continue-on-collection-errors", "-o", "addopts=", "--doctest-modules", "puan", "tests"]
+    log = open(os.path.join(workdir, "suite.log"), "w")
+    p = subprocess.Popen(cmd, cwd=env.REPO, env=e, stdout=log, stderr=subprocess.STDOUT)
+    return p, out, log, time.time()
+
+
+def finish_suite(suite):
+    p, out, log, t0 = suite
+    try:
+        p.wait(timeout=1500)
+    except subprocess.TimeoutExpired:
+        p.kill()
+        return None, "pytest sub-run exceeded its watchdog (inconclusive, ignored)"
+    finally:
+        log.close()
+    if os.path.exists(out):
+        try:
+            r = json.load(open(out))
+            r["seed"] = -1
+            r["counters"]["pytest:sub-run"] = 1
+            return r, "pytest sub-run merged (%d tests, %.0fs)" % (r["counters"].get("pytest:tests", 0), time.time() - t0)
+        except Exception as ex:
+            return None, f"pytest sub-run report unreadable: {ex}"
+    return None, "pytest sub-run produced no report (pytest exit %s)" % p.returncode
+
+
 def merge(reports):
     m = {"evaluations": 0, "counters": collections.Counter(), "nontrivial": set(), "samples": [],
          "violations": [], "violation_count": 0, "violation_kinds": collections.Counter(), "known": {},
@@ -131,8 +164,16 @@ def main(argv=None):
     shutil.rmtree(workdir, ignore_errors=True)
     os.makedirs(workdir)
     try:
+        suite = None
+        if tier == "thorough" and getattr(wl, "PYTEST", False) and not os.environ.get("VERIF_NO_PYTEST"):
+            suite = start_suite(prop, seed, workdir)
         results = run_shards(prop, tier, seed, nshards, cases, tlimit, workdir)
         reports = [r for _, r, _ in results if r is not None]
+        suite_note = None
+        if suite is not None:
+            srep, suite_note = finish_suite(suite)
+            if srep is not None:
+                reports.append(srep)
         dead = [(k, why) for k, r, why in results if r is None]
         m = merge(reports)
         extra = {}
@@ -180,6 +221,7 @@ def main(argv=None):
         "engine": sorted(x for x in m["engines"] if x), "known_findings_seen": {k: v["count"] for k, v in m["known"].items()},
         "violation_kinds": dict(m["violation_kinds"]), "inconclusive": inconclusive,
         "shards_stopped_by_time_limit": m["time_limited"],
+        "repository_test_suite_under_monitors": suite_note,
     }
     observed.update(extra.get("observed", {}))
     samples = m["samples"] or [{"note": "no sample recorded"}]
